@@ -96,6 +96,10 @@ pub fn shift_l(left: &BigInt, right: &BigInt, field: &BigInt) -> Result<BigInt, 
     let top = field / &two;
     if right <= &top {
         let usize_repr = right.to_usize().ok_or(ArithmeticError::DivisionByZero)?;
+        if usize_repr >= bit_representation(field).1.len() {
+            // Every bit is shifted past the mask. Avoid computing `2**right`.
+            return Ok(BigInt::from(0));
+        }
         let value = modulus(&((left * &num_traits::pow(two, usize_repr)) & &mask(field)), field);
         Ok(value)
     } else {
@@ -107,6 +111,10 @@ pub fn shift_r(left: &BigInt, right: &BigInt, field: &BigInt) -> Result<BigInt, 
     let top = field / &two;
     if right <= &top {
         let usize_repr = right.to_usize().ok_or(ArithmeticError::DivisionByZero)?;
+        if usize_repr >= left.bits() {
+            // Every bit is shifted out. Avoid computing `2**right`.
+            return Ok(BigInt::from(0));
+        }
         let value = left / &num_traits::pow(two, usize_repr);
         Ok(value)
     } else {
